@@ -71,7 +71,7 @@ impl Property for C02 {
     }
     fn rule(&self) -> String {
         "ASTs generated next to the spec (random depth<=6/10, and systematically every parent kind x child kind x side [x grandchild kind x side] over 26 node kinds), \
-         rendered by Spec.render with exactly the table-required parentheses and random admissible whitespace/comment gaps: the real tree must equal Spec.toTree; \
+         rendered by Spec.render with exactly the table-required parentheses, random admissible whitespace/comment gaps and random literal spellings (decimal / hex, plain / signed-exponent floats), plus atom-operator-atom in every literal spelling without blanks (`0x1e-3`, `5e-3-2e-3`): the real tree must equal Spec.toTree; \
          plus all token strings up to a length bound over a 14-token alphabet (real tree vs model tree). non-trivial = builds; distinct = distinct (operator set, size class)"
             .into()
     }
@@ -80,6 +80,13 @@ impl Property for C02 {
         let n_sys = if tier == Tier::Quick { 1352 } else { 1352 + 26 * 2 * 1352 };
         for i in 0..n_sys {
             reqs.push(format!("gen.c02sys {}", i));
+        }
+        for i in 0..10 {
+            reqs.push(format!("gen.c02call {}", i));
+        }
+        // literals in every spelling (hex, signed exponents) written without blanks around each binary operator
+        for i in 0..(13 * 13 * 14) {
+            reqs.push(format!("gen.c02tight {}", i));
         }
         let n_rand = if tier == Tier::Quick { 6000 } else { 300_000 };
         for k in 0..n_rand {
@@ -96,7 +103,7 @@ impl Property for C02 {
             let mut parts = a.splitn(2, ' ');
             let src = unx(parts.next().unwrap_or("x"));
             let spec = parts.next().unwrap_or("");
-            let bucket = if req.starts_with("gen.c02sys") { "systematic" } else if req.starts_with("gen.c02loose") { "random-ast-loose" } else { "random-ast" };
+            let bucket = if req.starts_with("gen.c02sys") { "systematic" } else if req.starts_with("gen.c02call") { "call-left-of-assign" } else if req.starts_with("gen.c02tight") { "tight-literals" } else if req.starts_with("gen.c02loose") { "random-ast-loose" } else { "random-ast" };
             cases.push(tree_case(&src, Some(spec), bucket));
         }
         let alphabet = ["1", "x", "f", "+", "*", "^", "-", "!", "==", "&&", "=", "+=", "(", ")"];
@@ -194,6 +201,18 @@ fn seq_case(src: &str, spec_tree: Option<&str>, bucket: &str) -> Case {
         format!("eval 0 mut s value {}", xarg(src)),
         "dump 0".to_string(),
     ];
+    let mut rest = rest;
+    if !(bucket.starts_with("tokens-len") && src.len() > 9) {
+        // the same sequence through the typed entry points of a precompiled tree, each on a fresh context:
+        // the earlier elements' effects are applied whichever entry point evaluates the chain
+        for (slot, kind) in [(1, "tuple"), (2, "empty")] {
+            rest.push(format!("new {} hm", slot));
+            rest.push(format!("setf {} {} id", slot, xarg("f")));
+            rest.push(format!("setv {} {} I3", slot, xarg("x")));
+            rest.push(format!("eval {} mut t {} {}", slot, kind, xarg(src)));
+            rest.push(format!("dump {}", slot));
+        }
+    }
     let mut impl_lines = vec![tree.clone()];
     impl_lines.extend(rest.iter().cloned());
     let mut drv_lines = vec![tree, format!("#spec {}", spec_tree.unwrap_or(""))];
@@ -209,7 +228,7 @@ impl Property for C13 {
     }
     fn rule(&self) -> String {
         "all token strings up to a length bound over {1, x, f, +, -, *, !, =, (, ), `,`, `;`} plus random longer ones: the Lean recogniser Spec.illFormed classifies the tokens; \
-         an ill-formed string must fail to build or give a tree with a wrong operand count, and must not evaluate successfully (x, f bound as variable and function); \
+         an ill-formed string must fail to build or give a tree with a wrong operand count, and must not evaluate successfully, neither in a mutable nor in a read-only context (x, f bound as variable and function); \
          balanced strings must not be reported as unbalanced. non-trivial = ill-formed by the recogniser; distinct = distinct string"
             .into()
     }
@@ -222,12 +241,35 @@ impl Property for C13 {
                 cases.push(ill_case(&s, &format!("tokens-len{}", len)));
             }
         }
-        let wide = ["1", "x", "f", "+", "-", "*", "!", "=", "(", ")", ",", ";", "^", "==", "&&", "+=", "\"s\"", "true", "2.5", "g", "||", "%", "<", "/"];
+        let wide = [
+            "1", "x", "f", "+", "-", "*", "!", "=", "(", ")", ",", ";", "^", "==", "&&", "+=", "\"s\"", "true", "2.5", "g", "||", "%", "<", "/", "false", "&&", "||", "false &&", "true ||",
+            // parentheses and quotes where they are text, not structure
+            "\"\\\"(\"", "\")\"", "\"(\"", "/* ( */", "/* ) */", "// )\n", "\"\\\\\"",
+        ];
         let n_rand = if tier == Tier::Quick { 20_000 } else { 400_000 };
         for _ in 0..n_rand {
             let len = 5 + rng.below(12);
             let s: Vec<&str> = (0..len).map(|_| *rng.pick(&wide)).collect();
             cases.push(ill_case(&s.join(" "), "random-long"));
+            // the same kind of sequence with every kind of gap between the tokens (none, blanks, comments): what separates
+            // two operands is the lexer's business, that they are juxtaposed is this property's
+            let mut t = String::new();
+            for tok in s.iter().take(7) {
+                t.push_str(tok);
+                t.push_str(*rng.pick(&[" ", "", "/**/", "\t", "/* c */", "\n", "  ", "/*)*/"]));
+            }
+            cases.push(ill_case(&t, "random-gaps"));
+        }
+        for a in ["1", "x", "\"s\"", "true", "2.5", ")", "f"] {
+            for b in ["1", "x", "\"s\"", "true", "2.5", "(", "!", "-"] {
+                for gap in ["/**/", "/* c */", "//\n", " /**/ "] {
+                    cases.push(ill_case(&format!("{}{}{}", a, gap, b), "operand-comment-operand"));
+                    cases.push(ill_case(&format!("(1 + {}{}{})", a, gap, b), "operand-comment-operand"));
+                }
+            }
+        }
+        for s in ["\"\\\"(\"", "len(\"\\\")\")", "1 + 2 // that was easy :-)", "(1 /* ( */ + 2) * 3", "\"(\" + \")\"", "+ 1 f 2", "false && !", "true || -", "false &&", "true ||", "false && (1 +)", "x == 5 || (5 ==)", "false && 1 2", "true || f f", "1, 2)", "x = 1; x)", ",)"] {
+            cases.push(ill_case(s, "named"));
         }
         for s in ["+ 1 2", "1 + 2()", "-1()", "== 1 !true", "== x !true", "1, 2; 3", "1()", "123(1*2)", "!(()true)", "true-", "(", ")", "(()", "f f", "x !x"] {
             cases.push(ill_case(s, "named"));
@@ -235,7 +277,7 @@ impl Property for C13 {
         (cases, maxlen == 6 && false)
     }
     fn judge(&self, case: &Case, out: &Outcome) -> Verdict {
-        // impl: [tree, new, setv, setf, eval]; drv: [spec.illformed, tree, new, setv, setf, eval]
+        // impl: [tree, new, setv, setf, eval ro, eval mut]; drv: [spec.illformed, tree, new, setv, setf, eval ro, eval mut]
         let spec = &out.drv_resp[0];
         let imp_tree = &out.impl_resp[0];
         let model_tree = &out.drv_resp[1];
@@ -248,6 +290,15 @@ impl Property for C13 {
         }
         if ill && imp_eval.starts_with("ok") {
             return Verdict::SpecViolation(format!("ill-formed ({}), but evaluates to `{}`", spec, imp_eval));
+        }
+        // … in any context: the read-only evaluation (second to last line) too
+        let imp_ro = eval_result(&out.impl_resp[out.impl_resp.len() - 2]);
+        let model_ro = eval_result(&out.drv_resp[out.drv_resp.len() - 2]);
+        if ill && imp_ro.starts_with("ok") {
+            return Verdict::SpecViolation(format!("ill-formed ({}), but evaluates to `{}` in a read-only context", spec, imp_ro));
+        }
+        if imp_ro.starts_with("ok") != model_ro.starts_with("ok") {
+            return Verdict::ModelMismatch(format!("read-only eval: impl `{}` model `{}`", imp_ro, model_ro));
         }
         if ill && imp_tree.starts_with("ok") && !tree_deficient(imp_tree) {
             return Verdict::SpecViolation(format!("ill-formed ({}), but builds the complete tree `{}`", spec, imp_tree));
@@ -276,6 +327,7 @@ fn ill_case(src: &str, bucket: &str) -> Case {
         "new 0 hm".to_string(),
         format!("setv 0 {} I5", xarg("x")),
         format!("setf 0 {} id", xarg("f")),
+        format!("eval 0 ro s value {}", xarg(src)),
         format!("eval 0 mut s value {}", xarg(src)),
     ];
     let mut drv = vec![format!("spec.illformed {}", xarg(src))];
